@@ -172,9 +172,9 @@ def load_known():
 class Case:
     """one protocol line, the builds it applies to, its input class (for the histogram) and an optional
     property oracle evaluated on the *implementation's* output"""
-    __slots__ = ('line', 'builds', 'cls', 'oracle', 'sig', 'spec', 'nomodel', 'canon', 'spec_when')
+    __slots__ = ('line', 'builds', 'cls', 'oracle', 'sig', 'spec', 'nomodel', 'canon', 'spec_when', 'mw')
 
-    def __init__(self, line, builds=('ark', 'min'), cls='', oracle=None, sig=None, spec=None, nomodel=False, canon=None, spec_when=None):
+    def __init__(self, line, builds=('ark', 'min'), cls='', oracle=None, sig=None, spec=None, nomodel=False, canon=None, spec_when=None, mw=None):
         self.line = line
         self.builds = builds
         self.cls = cls
@@ -184,6 +184,7 @@ class Case:
         self.nomodel = nomodel    # oracle only (e.g. RNG-driven samplers): no model comparison
         self.spec_when = spec_when  # predicate on the implementation output: compare with the spec line only when it holds
         self.canon = canon        # canonicalisation of the implementation's output before it is compared with the model
+        self.mw = mw              # model disagreement on this line is a failing input of the property (None: the property's default)
 
 
 def main():
@@ -344,8 +345,13 @@ def main():
                 stats['disagreements_checked'] += 1
                 io_c = c.canon(io) if c.canon else io
                 if mo != io_c:
-                    violations.append(dict(kind='model', sig=sig, detail='model and implementation disagree: [%s] %s -> impl %s, model %s'
-                                           % (bld, c.line[:400], io[:200], mo[:200]),
+                    # where the compared observable is canonical (an encoding, a verdict, a canonical field value) and the
+                    # model's value is the specified one by a theorem of this property, the line IS a failing input
+                    witness = c.mw if c.mw is not None else bool(P.get('model_is_spec'))
+                    violations.append(dict(kind='model', sig=sig, witness=witness,
+                                           detail=('%s: [%s] %s -> impl %s, model %s'
+                                                   % ('implementation differs from the model, whose value is the specified one (theorems of this property)'
+                                                      if witness else 'model and implementation disagree', bld, c.line[:400], io[:200], mo[:200])),
                                            lines=[dict(line=c.line, builds=[bld], spec=c.spec)], expected=mo, actual=io))
 
     # C12: three-way diff between the two builds
@@ -379,7 +385,7 @@ def main():
                 extra_lines.append(line)
 
     # 6. decide
-    has_witness = any(v['kind'] == 'oracle' for v in violations)
+    has_witness = any(v['kind'] == 'oracle' or (v['kind'] == 'model' and v.get('witness')) for v in violations)
     reported = 0
     printed_known = set()
     new_violations = []
@@ -405,7 +411,7 @@ def main():
                            seed=seed, tier=tier,
                            how='./check %s --replay %s' % (pid, rpath)), f, indent=1)
         suffix = ''
-        if kind in ('theorem', 'model', 'build') and not has_witness:
+        if kind in ('theorem', 'model', 'build') and not has_witness and not v.get('witness'):
             suffix = ' no-failing-input-found'
         print('VIOLATION property=%s replay=%s%s' % (pid, rpath, suffix))
         print('  [%s] %s' % (kind, v['detail'][:600]))
